@@ -50,7 +50,8 @@ func evalTxRoot(b *baseBlock) (out []obs) {
 			out = append(out, obs{fmt.Sprintf("C13|txs=%s|oracle=txhash-vs-reference-trie", txCountClass(n)),
 				fmt.Sprintf("%s: Header.TxHash of the proposer's block with %d transactions is %x, the reference trie root of {rlp(i) -> tx i} is %x", b.name, n, got[:], ref[:])})
 		}
-		if got := types.DeriveSha(types.Transactions(b.block.Transactions()), trie.NewStackTrie(nil)); [32]byte(got) != ref {
+		// DeriveSha itself only when it disagrees with the header (NewBlock is expected to call it)
+		if got := types.DeriveSha(types.Transactions(b.block.Transactions()), trie.NewStackTrie(nil)); got != b.block.Header().TxHash && [32]byte(got) != ref {
 			out = append(out, obs{fmt.Sprintf("C13|txs=%s|oracle=derivesha-vs-reference-trie", txCountClass(n)),
 				fmt.Sprintf("%s: DeriveSha over %d transactions gives %x, the reference trie root is %x", b.name, n, got[:], ref[:])})
 		}
